@@ -20,6 +20,12 @@ RULE = ('T2: URI.join evaluated by the Gallina model (vm_compute; the reference 
 	'expected in the spelling URI.parse gives it); every join repeated with the reference as str, URI object, tuple and keywords (same result, arguments neither returned nor '
 	'modified); degenerate and re-encoded references; every scheme of URI.SCHEMES read at run time as base and reference scheme; lengths 11..65536 (> 4200 oracle-only); '
 	'kind seq: one base object joined several times, modified through every public setter and replaced by its own results, against a fresh object built from the same components. '
+	'Fourth-wave classes: the delimiters and reserved names of the other components (: / ? # @ ; , = & " //, scheme names, port numbers, whole URIs, urn:..., hh:mm) inside query and '
+	'fragment of every reference shape (query-only, fragment-only, one-segment, ";x", ".", "..", relative, absolute-path, network-path, scheme-qualified) and of the base, inside user info, '
+	'and ":" inside path segments where a scheme or an authority precedes it (a ":" in the path of a reference without scheme and authority is refused by URI.parse: finding D49 of the unchanged '
+	'tree, kept out); read-only observers (repr str bytes hash bool len iter in dict sorted format copy deepcopy == != <= every public attribute) on the base and on the reference object before '
+	'join, the base built through every construction path (class of the registry, tuple, dict, copy, copy.copy/deepcopy), against the RFC result and a fresh unobserved base; the result is also '
+	'compared with == and != (both orders) against a URI built from the expected components. '
 	'non-trivial = distinct (base, reference) whose result differs from the base')
 EXHAUSTIVE = {'quick': True, 'thorough': True}
 TRUSTED = ['harness/tables/urinorm.py (T1: URI.SCHEMES -> PORT, URI.PORT, normalize() probe)',
@@ -38,6 +44,7 @@ WITNESSES = [
 	('D20d-scheme-ref-hostless-dots', {'k': 'join', 'base': BASE, 'ref': 'g:/../y'}),
 	('D20d-scheme-ref-hostless-dots', {'k': 'join', 'base': BASE, 'ref': 'g:.'}),
 	('D20e-separator-only-query', {'k': 'join', 'base': BASE, 'ref': '?&', 'nocoq': True}),
+	('D20f-colon-in-relative-path', {'k': 'join', 'base': BASE, 'ref': './a:b', 'nocoq': True}),
 ]
 
 BASES = ['http://a/b/c/d;p?q', 'http://a', 'http://a/', 'http://a/b/', 'http://a/b?q', 'https://a:8/x/y/', 'ftp://u:p@h/a/b', 'http://h:8080/x',
@@ -98,6 +105,7 @@ def gen_cases(rng, tier):
 		for r in refs:
 			cases.append({'k': 'resolve', 'base': b, 'ref': r})
 	cases.extend(gen_classes(rng, tier))
+	cases.extend(gen_wave4(rng, tier))
 	return cases
 
 
@@ -118,6 +126,7 @@ DEGEN_REFS = [';', ';;', ';/..', ';/../;', '/;', '/;/', '..;', '.;', ';..', ';.'
 	'g/h/../../../..', 'g/./h/./..', '%20', '%20/..', '../%20', 'g%20h', '/%20', '//o/%20', '?%20', '#%20', '+', '?+', '#+', '?a+b', '?a%2Bb', '?a=%26', '?%C3%A4=%C3%B6', '?e%CC%81', '#e%CC%81', '#%C3%A9']
 
 
+COLON_PATH_REFS = ['./a:b', '/a:b', 'g/a:b', '/wiki/Special:Search', './this:that', '../x:y', 'g/./h:1', '/a:b?q#f']
 SEP_ONLY_REFS = ['?&', '?&&', '?=', '?=&=', 'g?&', '/g?=', '//o/p?&', '?&#s']
 # Kept apart from DEGEN_REFS: a query made only of form separators ('?&', '?&&', '?=', '?=&=') is known finding D20e of the unchanged tree.
 # URI.parse re-encodes every query through the form-urlencoded codec, which turns '&', '&&', '=' into the empty query and '=&=' into '&';
@@ -224,6 +233,10 @@ def gen_classes(rng, tier):
 	for r in SEP_ONLY_REFS:
 		for b in (BASE, 'http://a', 'http://a/b/?q%20r'):
 			cases.append({'k': 'join', 'base': b, 'ref': r, 'nocoq': True})
+	# a ':' in the path of a reference without scheme and authority (known finding D20f; root cause D49 of C04): oracle-only
+	for r in COLON_PATH_REFS:
+		for b in (BASE, 'http://a', 'http://a/b/?q%20r'):
+			cases.append({'k': 'join', 'base': b, 'ref': r, 'nocoq': True})
 	# -- (6) references of the existing classes, re-encoded (unreserved characters percent-encoded): same result
 	alpha = RSEGS + ['..', '.', 'g', 'i;x', 'j.k', '...', 'g~h', 'k-l_m']
 	for _ in range(800 * mul):
@@ -276,6 +289,224 @@ def gen_classes(rng, tier):
 	return cases
 
 
+# ---------------------------------------------------------------- fourth wave of input classes
+# (9) metacharacters / reserved names of one component inside a neighbouring one, (7) read-only observers before join,
+# (8) every construction path of the base and every comparison of the result.  Appended after everything else so that the
+# random stream of the earlier generators is unchanged.
+#
+# Kept out (finding D49 of the unchanged tree, recorded under C04): a ':' in the PATH of a reference that has neither scheme nor
+# authority ('/a:b', './a:b', 'g/a:b', 'g;x:y', '/wiki/Special:Search').  URI.parse takes the text before the first ':' of an
+# authority-less URI as the scheme, finds '/' or ';' in it and raises InvalidURI, so join() raises instead of returning
+# 'http://a/b/c/a:b'.  A ':' in query, fragment, user info, or in a path behind a scheme or an authority is covered below.
+
+QMETA = ['a:b', 't=12:30', ':', '::', 'next=http://x/y', 'urn:isbn:1', 'k:v&l:w', '/', '/../x', 'a/./b', '//x', '?', 'a?b', '??', 'a?b:c', '@', 'u@h', 'u:p@h:81', ';', 'a;b', ',', 'a,b:c',
+	'x=1&y=2', 'x=a:b&y=c/d', ':80', 'http:', 'http://H:80/a/../b', 'HTTP', 'https', 'uri', 'q', 'a:b:c', "':'", '!:$', '(:)', '*:', '-._~:', '::1', 'g:h', '..:', '.:.']
+# spelled differently by URI.parse (form-urlencoded re-encoding of the query, the component property's business): expected in that spelling ('qany')
+QMETA_RESPELLED = ['a"b', '":"', 'next=http://x/y?z=1', 'a=b=c:d', 'a[0]:1', 'a|b:c', '{a:b}', '^:`', 'a:b&&c:d', '=a:b', 'a:b=']
+FMETA = ['sec:2', 'urn:isbn:1', ':', '::', 'a:b/c', '/', '/../x', 'a/./b', '//x', '?', '?q=1', 'a?b:c', '@', 'u:p@h:81', ';', ',', '=', '&', 'x=1&y=2:3', '"', 'a"b:c', '#', 'a#b', '#:', 'a:#b',
+	'http://H:80/a/../b', 'HTTP:', 'https', '%3A', '%23:', 'a%3ab:c', "!$&'()*+,;=:@/?", 't=12:30', '..:', '.:.', 'g:h', '[a:b]', '{a:b}', '|:^`']
+QTPLS = ['?%s', '?%s#s', 'g?%s', 'g?%s#s', ';x?%s', '.?%s', '..?%s', 'g/?%s', './g?%s', '../g?%s', 'g/h?%s', '/g?%s', '/?%s', '//o?%s', '//o/p?%s#s', '//u:p@o:81/x?%s', 'z://o/p?%s', 'z://o?%s', 'g:h?%s', 'HTTP://B:80/x?%s#s']
+FTPLS = ['#%s', '?y#%s', 'g#%s', 'g?y#%s', ';x#%s', '.#%s', '..#%s', 'g/#%s', './g#%s', '../g#%s', '/g#%s', '/#%s', '//o#%s', '//o/p?y#%s', 'z://o/p#%s', 'g:h#%s', 'HTTP://B:80/x#%s']
+META_BASES = [BASE, 'http://a', 'https://u:p@a:8/x/y/?k=a:b/c?d@e', 'http://a/b/?t=12:30']
+PATH_META_REFS = ['g@h', 'u@h/x', '@', 'a=b&c', 'g,h', 'g"h', '"', 'a;b=c,d', "!$&'()*+,;=@", '//o/a:b', '//o/a:b/../c:d', '//o/:', '//o/..:/x', '//o/.:/x', '//o/:../x', '//o/a:b?c:d#e:f', '//o:81/a:80/b',
+	'z://o/a:b', 'z://o/a:b/..', 'g:h:i', 'g:h:i?j:k', 'http://o:81/a:80/b', 'HTTP://O:80/a:b/./c', '//u:p:w@o/x', '//u%40v@o/', '//u;x=1,y@o/', '//u:p%3Aw@o', '//u@v@o/x', '//:p@o', '//u:@o:81', '//o/p@q', '//o?u@v', '//o#u@v',
+	'http', 'https', 'ftp', 'HTTP/g', 'http/../g', 'http/./https', '?http', '#https', '//http', '//http:81', '//HTTP:8080/http', '//https/?http#ftp', 'http:/g', 'HTTP:/G', 'x-y:/g', 'g?y=http&z=80', '80', '80/443', '443?80#21']
+COLON_BASES = ['http://a/b:c/d:e', 'http://a/:/x', 'http://a/b:c/', 'http://u:p:w@a/b;x:y/c?k:v', 'x-y://h/p:q/r']
+OBSERVERS = ['repr', 'str', 'bytes', 'hash', 'bool', 'len', 'iter', 'in', 'dict', 'sorted', 'format', 'copy', 'deepcopy', 'eq', 'ne', 'eqtext', 'netext', 'le', 'ge',
+	'attrs', 'tupleattr', 'dictattr', 'segments', 'query', 'hostname', 'portattr', 'composeiter', 'joinself']
+BHOWS = [None, 'copy', 'retuple', 'redict', 'copycopy', 'deepcopy', 'setfrom', 'class', 'otherclass', 'kwargs']
+
+
+def _pre(rng):
+	return [[rng.choice(OBSERVERS), rng.choice(['self', 'self', 'copy', 'copycopy'])] for _ in range(rng.randint(1, 4))]
+
+
+def gen_wave4(rng, tier):
+	big = tier == 'thorough'
+	mul = 5 if big else 1
+	cases = []
+	seen = set()
+
+	def add(b, r, **kw):
+		key = (b, r, repr(sorted(kw.items())))
+		if key in seen:
+			return
+		seen.add(key)
+		c = {'k': 'join', 'base': b, 'ref': r}
+		c.update(kw)
+		cases.append(c)
+	# -- (9) the delimiters of the other components inside query and fragment, for every shape of reference
+	for bi, b in enumerate(META_BASES):
+		for qi, q in enumerate(QMETA):
+			for ti, tpl in enumerate(QTPLS):
+				if bi < 2 or big or (qi + ti) % 4 == bi:
+					add(b, tpl % q)
+		for q in QMETA_RESPELLED:
+			for ti, tpl in enumerate(QTPLS):
+				if bi == 0 or big or ti % 4 == bi:
+					add(b, tpl % q, qany=True)
+		for fi, f in enumerate(FMETA):
+			for ti, tpl in enumerate(FTPLS):
+				if bi < 2 or big or (fi + ti) % 4 == bi:
+					add(b, tpl % f)
+	#    ... in user info and path (a ':' in the path only behind a scheme or an authority, see D49 above), reserved names as data
+	for r in PATH_META_REFS:
+		for b in META_BASES:
+			add(b, r)
+		for suffix in ('?a:b', '#a:b', '?next=http://x/y#sec:2'):
+			if '?' not in r and '#' not in r:
+				add(BASE, r + suffix)
+	#    ... and in the base: the path, query and user info of the base carry them, the reference does not
+	for b in COLON_BASES + META_BASES[2:]:
+		for r in ('', 'g', './g', '../g', '..', '.', '/g', '//o', '?y', '#s', 'g?y#s', '?a:b', '#a:b', ';x', 'z://o/', 'g;x=1/../y'):
+			add(b, r)
+	# random combinations: meta query and fragment on random relative paths
+	alpha = RSEGS + ['..', '.', 'g', 'i;x', 'j.k', 'g@h', 'a=b,c']
+	for _ in range(500 * mul):
+		r = rng.choice(['', '', '', '/', '//o/', '//u:p:w@O:80/', 'z://o/', 'HTTP://Z/']) + U.rpath(rng, 0, 4, alpha)
+		if rng.random() < 0.7:
+			r += '?' + rng.choice(QMETA)
+		if rng.random() < 0.6:
+			r += '#' + rng.choice(FMETA)
+		add(rng.choice(BASES + META_BASES + COLON_BASES), r)
+	# -- (7) read-only observers on the base (and on the reference object) before join; (8) the base built through every construction path
+	pool = [c['ref'] for c in cases if not c.get('qany')] + SPECIAL_REFS + DEGEN_REFS + [r for r, _ in U.RFC54]
+	for n in range(700 * mul):
+		kw = {}
+		if n % 3 != 1:
+			kw['pre'] = _pre(rng)
+		if n % 3 != 0:
+			kw['bhow'] = rng.choice(BHOWS[1:])
+		add(rng.choice(BASES + META_BASES[2:] + COLON_BASES), rng.choice(pool), **kw)
+	for how in BHOWS[1:]:
+		for r in ('g', '../g', '?a:b', '#a:b', '//o/x', 'z://o/', ''):
+			add(BASE, r, bhow=how)
+	# observers interleaved with joins and modifications of one base object
+	alpha2 = RSEGS + ['..', '.', 'g', 'i;x', 'j.k', '...', 'g~h', 'k-l_m', '..;x', 'g%20h', '%2f']
+	for n in range(350 * mul):
+		ops = []
+		for _i in range(rng.randint(3, 7)):
+			r = rng.random()
+			if r < 0.4:
+				ref = rng.choice(['', '', '/', '//o/', 'z://o/']) + U.rpath(rng, 0, 4, alpha2) + rng.choice(['', '', '?y', '#s', '?a:b', '#a:b', '?t=12:30#sec:2'])
+				ops.append(['join', ref, rng.choice(['bytes', 'bytes', 'str', 'obj', 'tuple', 'dict'])])
+			elif r < 0.85:
+				ops.append(['obs'] + _pre(rng)[0])
+			elif r < 0.92:
+				ops.append(['chain'])
+			else:
+				ops.append(['set', 'path', rng.choice(['', '/', '/x/y', '/x/y/', '/a:b/c'])])
+		ops.append(['join', rng.choice(['g', '../g', '?a:b', '#a:b']), rng.choice(['bytes', 'obj'])])
+		cases.append({'k': 'seq', 'base': rng.choice(BASES + COLON_BASES), 'ops': ops})
+	return cases
+
+
+def _ro(u, name, target='self'):
+	"""one read-only use of u (or of a copy of u); whatever it answers or raises is not this property's business, what it leaves behind is"""
+	import copy
+	x = u
+	if target == 'copy':
+		x = type(u)(u)
+	elif target == 'copycopy':
+		x = copy.copy(u)
+	try:
+		if name == 'repr':
+			repr(x)
+		elif name == 'str':
+			str(x)
+		elif name == 'bytes':
+			bytes(x)
+		elif name == 'hash':
+			hash(x)
+		elif name == 'bool':
+			bool(x)
+		elif name == 'len':
+			len(x)
+		elif name == 'iter':
+			list(iter(x))
+		elif name == 'in':
+			'a' in x
+		elif name == 'dict':
+			dict(x)
+		elif name == 'sorted':
+			sorted([x, u])
+		elif name == 'format':
+			format(x)
+		elif name == 'copy':
+			copy.copy(x)
+		elif name == 'deepcopy':
+			copy.deepcopy(x)
+		elif name == 'eq':
+			x == u
+			u == type(u)(u)
+		elif name == 'ne':
+			x != u
+			u != type(u)(u)
+		elif name == 'eqtext':
+			x == b'http://example.com/a/../b'
+			u'HTTP://h/' == x
+		elif name == 'netext':
+			x != b'http://example.com/a/../b'
+			u'HTTP://h/' != x
+		elif name == 'le':
+			x <= u
+		elif name == 'ge':
+			x >= u
+		elif name == 'attrs':
+			for a in ('scheme', 'username', 'password', 'host', 'hostname', 'port', 'path', 'path_segments', 'query_string', 'query', 'fragment', 'tuple', 'dict', 'PORT', 'encoding', 'slots'):
+				getattr(x, a)
+		elif name == 'tupleattr':
+			x.tuple
+		elif name == 'dictattr':
+			x.dict
+		elif name == 'segments':
+			x.path_segments
+		elif name == 'query':
+			x.query
+		elif name == 'hostname':
+			x.hostname
+		elif name == 'portattr':
+			x.port
+		elif name == 'composeiter':
+			list(x._compose_absolute_iter())
+		elif name == 'joinself':
+			x.join(b'../other?a:b#c')   # join itself reads its base
+		else:
+			raise KeyError('harness: unknown observer %r' % (name,))
+	except KeyError:
+		raise
+	except Exception:
+		pass
+
+
+def _rebuild(x, how, rng_free_text=None):
+	"""the same URI through another construction path"""
+	import copy
+	C = U.classes()
+	if how == 'copy':
+		return type(x)(x)
+	if how == 'retuple':
+		return C['URI'](x.tuple)
+	if how == 'redict':
+		return C['URI'](x.dict)
+	if how == 'kwargs':
+		return C['URI'](**x.dict)
+	if how == 'copycopy':
+		return copy.copy(x)
+	if how == 'deepcopy':
+		return copy.deepcopy(x)
+	if how == 'setfrom':
+		y = C['URI']()
+		y.set(x)
+		return y
+	if how == 'class':
+		return type(x)(rng_free_text)
+	if how == 'otherclass':
+		names = sorted(n for n in C if n != 'URI' and C[n] is not type(x))
+		return C[names[len(rng_free_text) % len(names)]](rng_free_text)
+	raise KeyError('harness: unknown construction %r' % (how,))
+
+
 # ---------------------------------------------------------------- observation
 
 def _mk(spec):
@@ -300,7 +531,15 @@ def observe(c):
 			return {'err': U.exc_name(exc), 'msg': str(exc)[:200]}
 	try:
 		base = _mk(c['base'])
+		if c.get('bhow'):
+			base = _rebuild(base, c['bhow'], c['base'].encode('utf-8') if isinstance(c['base'], str) else None)
+		if c.get('pre'):
+			base0 = U.state(base)
+			for name, target in c['pre']:
+				_ro(base, name, target)
 		o = {'base': U.state(base)}
+		if c.get('pre'):
+			o['base0'] = base0
 		ref = c['ref'].encode('utf-8')
 		try:
 			rel = U.classes()['URI'](ref)
@@ -312,10 +551,37 @@ def observe(c):
 		o['pub'] = U.public(j)
 		o['after'] = U.state(base)   # join must not modify the base
 		o['qc'] = _qcanon(c)
-		o['alt'] = _alt_joins(base, c['ref'], j)
+		o['alt'] = _alt_joins(base, c['ref'], j, c.get('pre'))
+		if c.get('pre') or c.get('bhow'):
+			fresh = _mk(c['base'])   # never looked at, built the plain way
+			o['fresh'] = U.state(fresh.join(ref))
+		if base_in_domain(c['base']):
+			o['cmp'] = _cmp_result(c, o, j)
 		return o
 	except Exception as exc:
 		return {'err': U.exc_name(exc), 'msg': str(exc)[:200]}
+
+
+def _cmp_result(c, o, j):
+	"""the result against a URI object built from the expected components (and from its own components), through == and != in both orders"""
+	C = U.classes()
+	want = expected(U.rfc_resolve(U.parse5(c['base']), U.parse5(c['ref'])), _qcanon(c))
+	out = {}
+	for name, t in (('want', want), ('own', list(o['pub']))):
+		try:
+			w = C['URI'](tuple(t))
+			out[name] = [_b(lambda: j == w), _b(lambda: j != w), _b(lambda: w == j), _b(lambda: w != j)]
+		except Exception as exc:   # the expected components are not accepted by the constructor (port out of range ...): nothing to compare with
+			out[name] = 'n/a:%s' % type(exc).__name__
+	return out
+
+
+def _b(f):
+	try:
+		r = f()
+	except TypeError:
+		return 'TypeError'
+	return r if isinstance(r, bool) else repr(r)
 
 
 def _qcanon(c):
@@ -326,7 +592,7 @@ def _qcanon(c):
 	if isinstance(c['base'], str):
 		qs.append(U.parse5(c['base'])[3])
 	for q in qs:
-		if q and ('%' in q or '+' in q):
+		if q and ('%' in q or '+' in q or c.get('qany')):
 			out[q] = U.classes()['URI'](b'http://x/?' + q.encode('utf-8')).query_string
 	return out
 
@@ -347,13 +613,19 @@ def _refarg(way, ref):
 	raise ValueError(way)
 
 
-def _alt_joins(base, ref, j):
+def _alt_joins(base, ref, j, pre=None):
 	"""the same reference handed over in every form join() accepts; the base object is reused"""
 	out = {'ident': j is base}
 	for way in ('str', 'obj', 'tuple', 'dict', 'bytes'):
 		try:
 			args, kw, robj = _refarg(way, ref)
 			before = U.state(robj) if robj is not None else None
+			if robj is not None and pre:
+				for name, target in pre:   # the reference object is looked at before it is handed over
+					_ro(robj, name, target)
+				if U.state(robj) != before:
+					out[way] = {'err': 'observer', 'msg': 'the read-only uses %r changed the reference object: %r became %r' % (pre, before, U.state(robj))}
+					continue
 			jj = base.join(*args, **kw)
 			out[way] = {'out': U.state(jj), 'pub': U.public(jj), 'ident': jj is base or jj is robj, 'refsame': before is None or U.state(robj) == before}
 		except Exception as exc:
@@ -379,6 +651,11 @@ def _obs_seq(c):
 			steps.append({'b': before, 'rel': U.state(rel), 'out': U.state(j), 'fout': U.state(jf), 'after': U.state(base), 'ident': j is base or j is robj,
 				'refsame': robj is None or U.state(robj) == U.state(rel)})
 			last = j
+		elif w == 'obs':
+			before = U.state(base)
+			_ro(base, op[1], op[2])
+			if U.state(base) != before:
+				return {'observer_changed': [op, before, U.state(base)], 'steps': steps}
 		elif w == 'chain':
 			if last is not None:
 				base = last
@@ -492,6 +769,8 @@ def oracle(c, o):
 	if k == 'seq':
 		if 'err' in o:
 			return 'unexpected exception %s' % (o,)
+		if 'observer_changed' in o:
+			return 'the read-only use %r changed the base object: %r became %r (case %r)' % (o['observer_changed'][0], o['observer_changed'][1], o['observer_changed'][2], c)
 		for n, st in enumerate(o['steps']):
 			if st['after'] != st['b']:
 				return 'join modified the base URI (step %d of %r on %r): %r became %r' % (n, c['ops'], c['base'], st['b'], st['after'])
@@ -506,6 +785,8 @@ def oracle(c, o):
 		return None
 	if 'err' in o:
 		return 'join raised: %s' % (o,)
+	if 'base0' in o and o['base0'] != o['base']:
+		return 'the read-only uses %r changed the base object: %r became %r' % (c['pre'], o['base0'], o['base'])
 	if o['after'] != o['base']:
 		return 'join modified the base URI'
 	want = expected(U.rfc_resolve(U.parse5(c['base']), U.parse5(c['ref'])), o.get('qc'))
@@ -532,6 +813,13 @@ def oracle(c, o):
 				return 'join(%r, reference %r given as %s) returned or modified one of its arguments' % (c['base'], c['ref'], way)
 		if alt['after'] != o['base']:
 			return 'join modified the base URI (reference %r given in other forms)' % (c['ref'],)
+	if 'fresh' in o and o['fresh'] != o['out']:
+		return 'join(%r, %r) on a base that was built through %r and looked at through %r gives %r, a fresh base gives %r' % (c['base'], c['ref'], c.get('bhow'), c.get('pre'), o['out'], o['fresh'])
+	cmpr = o.get('cmp')
+	if cmpr:
+		for name, what in (('want', 'a URI built from the expected components %r' % (want,)), ('own', 'a URI built from its own components')):
+			if isinstance(cmpr[name], list) and cmpr[name] != [True, False, True, False]:
+				return 'join(%r, %r) compared with %s: [result == it, result != it, it == result, it != result] = %r' % (c['base'], c['ref'], what, cmpr[name])
 	return None
 
 
@@ -547,6 +835,8 @@ def classify(c, o, fail):
 		return 'D20c-empty-query'
 	if rq and set(rq) <= set('&=') and ' query: ' in fail:
 		return 'D20e-separator-only-query'
+	if rs is None and ra is None and ':' in rp and fail.startswith('join raised') and "'ref:invalid'" in fail and 'Invalid scheme' in fail:
+		return 'D20f-colon-in-relative-path'
 	if ' path: ' in fail:
 		if rs is not None and ra is None and ('..' in segs or '.' in segs):
 			return 'D20d-scheme-ref-hostless-dots'
